@@ -3,7 +3,9 @@
  *   run B: the iterator answers ERROR_BLOCK_NOT_READY at arbitrary calls (nondet bit per first/next call, at most
  *          VF_MAX_NOTREADY times) and yr_scanner_scan_mem_blocks is repeated until it completes.
  * Real code: whole scan (see common/whole_scan.h) on the image of  rule r { strings: $a = "ab" condition: <T_COND> }.
- * Symbolic: data bytes and length (<= VF_N), number of blocks (1..3) and cut points, the not-ready schedule.
+ * Symbolic: data bytes and length (<= VF_N) and the cut points of the block partition.  The number of blocks and the
+ * not-ready schedule are enumerated at harness level (-DVF_NBLOCKS_C, -DVF_SCHED bitmask over iterator calls): a
+ * symbolic schedule makes the merged scanner state after a suspended call intractable (probe in DESIGN section 4).
  * Asserted: B returns NOT_READY exactly when the iterator said so, delivers NO callback before its final call, and its
  * final callbacks, match lists and return code equal A's (nothing lost, nothing duplicated).
  */
@@ -39,7 +41,7 @@ int main(void)
   IMG_no_required[0] |= 1; /* evaluate the rule unconditionally: keeps the VM's ip concrete (see whole_scan.h) */
   size_t n = vf_range(0, VF_N);
   vf_fill(buf, VF_N);
-  int nblocks = (int) vf_range(1, VF_NBLOCKS_MAX);
+  int nblocks = VF_NBLOCKS_C; /* concrete, see whole_scan.h */
   size_t c1 = vf_range(0, VF_N), c2 = vf_range(0, VF_N);
   VF_ASSUME(c1 <= c2 && c2 <= n);
 
